@@ -41,6 +41,24 @@ CLAIMED = {
         "technique": "Coq proof (selection invariants of the two merge loops, monotone binary64 ratio) + differential "
                      "correspondence + exact-rational recount oracle on every k/n threshold boundary",
     },
+    "C03": {
+        "text": "Machine-checked proofs about the validated pipeline model (all closed under the global context): "
+                "switching all_instances_are_compliant_mode off never changes a cardinality and never yields ?/* "
+                "(C03_mode_off_keeps_cards, C03_mode_on_off); with keep_less_specific a '?' constraint comes from a "
+                "{1} candidate that tied with its '+' sibling, so no instance has two matching values "
+                "(C03_relaxed_card_sound, C03_opt_at_most_one); every output cardinality holds on every instance "
+                "(C03_cardinalities, exact and binary64); and on the property's strict domain the instance typing is a "
+                "valid typing of the extracted schema under the ShEx semantics of Spec/ShexSem.v "
+                "(C03_conformance_partial: the profile characterisation is a premise that the check evaluates on every "
+                "input).  The ORACLE on the real ShExC text is the EXTRACTED Coq semantics (valid_typingb), judging "
+                "every (instance, shape) pair; the real output is corresponded with the model's on both mode settings.",
+        "design": "DESIGN.md sections 0a, 7 (C03), 11",
+        "note": "Outside strict_domb three root causes break the guarantee (findings C03-F1..F3, refuted lemmas).  "
+                "Disjunctions, target-class mode, instance cap, custom shapes namespace are outside the domain.  "
+                "Trusted base as C01 + the ShExC canonicaliser that feeds the extracted validator.",
+        "technique": "Coq theorems about the pipeline model; ShEx semantics written as a decidable Spec and extracted to "
+                     "OCaml as the oracle on real output; differential correspondence on the full canonical structure",
+    },
     "C04": {
         "text": "Machine-checked proof that the shexing stage of the model -- in which every unguarded dereference, "
                 "index, key lookup and raise of the Python code is an explicit error outcome -- returns a result for "
@@ -55,6 +73,113 @@ CLAIMED = {
                 "known_findings.json status fixed).",
         "technique": "Coq totality proof over an error-explicit model + differential outcome correspondence + crash "
                      "search over adversarial graphs x configurations x {ShExC, SHACL, profile_graph}",
+    },
+    "C05": {
+        "text": "Machine-checked proof (Coq 8.16.1, closed under the global context) that every ShExC text the validated "
+                "serialiser model prints on C05_dom is accepted by a lexer + automaton recogniser written from the ShEx "
+                "2.1 grammar (C05_document_recognised) and, given a reference-closed shape list with distinct labels, has "
+                "a functional prefix map, only declared prefixes, distinct labels and resolving references "
+                "(C05_closed_text, C05_wellformed_closed_partial); reference closure and label distinctness of the shape "
+                "list after empty-shape removal are proved in Props/C05refs.v for the default shapes namespace and "
+                "injective labels.  The model's text equals the real Shaper's byte for byte, and the EXTRACTED "
+                "recogniser and closure checks run on every real output (incl. reference chains through shape maps); "
+                "SHACL output is parsed with rdflib and checked for sh:node / path closure.",
+        "design": "DESIGN.md sections 0a, 7 (C05), 11",
+        "note": "Partial: SHACL is oracle-only (not modelled); C05_dom of the shape list is monitored at run time by the "
+                "model binary rather than derived from graph-level premises; the random-prefix fallback is outside the "
+                "model.  Findings C05-F1 (custom shapes_namespace: dangling references, pinned by golden files), C05-F2 "
+                "(shared local names: duplicate labels), C05-F3 (parsed prefix collision).  Trusted: the Spec recogniser "
+                "(a subset of the grammar, keywords case-insensitive).",
+        "technique": "Coq: state-machine lexer and parser automaton compositional over ++, per-line token lemmas, closure "
+                     "invariant of the cleaning loop; byte-exact text correspondence; extracted-Spec oracle on real output",
+    },
+    "C07": {
+        "text": "Machine-checked proofs (14 theorems, closed under the global context) about an executable Gallina model "
+                "of the streaming Turtle reader: the subject/predicate/object state machine persisted across lines "
+                "yields exactly the triples of the statement groups for ANY cut of the token sequence into lines "
+                "(C07_T1, unbounded); the tokenizer returns exactly the tokens of a cleaned dialect line and never "
+                "raises or hangs (C07_T2); prefix/base expansion and literal typing give the spec's node, IRI, label or "
+                "datatype (C07_T4); cleaning removes exactly the comment on the proved line shapes (C07_T3_*); "
+                "end to end, reading the rendered TEXT of any document and layout of C07_partial_dom yields its "
+                "semantics (C07_partial); the tested out-of-dialect escapes raise (C07_reject).  ~35 reader constants "
+                "are regenerated from the source.  Tied to /repo by correspondence with the real reader on every "
+                "generated document (all 3^gaps layouts / 2^gaps break placements of small documents), with the "
+                "abstract triples as oracle and rdflib's Turtle parser validating the generator.",
+        "design": "DESIGN.md sections 0a, 7 (C07), 11",
+        "note": "The full property is false on the current reader: 17 known findings (F1-F13 expansion / typing / comment "
+                "scan, R1-R4 missing rejections), each with a refuted lemma and a pinned reproducer; C07_dom excludes "
+                "exactly those.  Lexical forms are not compared; untyped numerics other than [+-]digits[.digits] give the "
+                "explicit outcome 'unmodelled'.  Open: T3 for a line holding both a string literal and a comment.",
+        "technique": "executable Gallina model of the reader; induction over token streams and line cuts; differential "
+                     "correspondence bounded-exhaustive over layouts",
+    },
+    "C08": {
+        "text": "Machine-checked proofs (16 theorems, closed under the global context) about an executable model of the "
+                "plumbing that turns a source into the two triple streams of the two passes, with the format x "
+                "compression x source dispatch, line-reader chain and zip guard generated from the AST: for "
+                "line-compositional readers ANY partition of the lines into files / zip members / archives and any "
+                "documented compression gives the stream of the single raw string (C08_partition_invisible*; the reader "
+                "hypotheses are discharged for TSV), both passes of line channels see the same list "
+                "(C08_both_passes_same), rdflib's per-pass permutation and blank-node renaming are invisible when no "
+                "blank node is an instance or class (C08_renamings_invisible_partial, composed with C09), every "
+                "accepted combination reaches the expected yielder (C08_dispatch_total), and the TSV channel reads the "
+                "NT semantics (C08_tsv_reads_nt_semantics).  Tied to /repo by a metamorphic oracle over 34 channels per "
+                "graph, stream correspondence with the real reader plugged in, exhaustive dispatch and line-reader "
+                "correspondence.",
+        "design": "DESIGN.md sections 0a, 7 (C08), 11",
+        "note": "Hypotheses: the N-Triples reader's line-compositionality is C06's; codecs are identities (monitored); "
+                "rdflib delivers a permutation up to injective renaming (monitored).  Findings C08-F1..F5.  TURTLE_ITER "
+                "is corresponded but has no partition theorem (prefix state).",
+        "technique": "executable Gallina model with table-driven dispatch from Consts.v, readers and rdflib as Section "
+                     "variables / oracles; metamorphic oracle + stream and dispatch correspondence",
+    },
+    "C09": {
+        "text": "Machine-checked proofs for ALL graphs: the declarative counts occ/class_count are invariant under "
+                "permutation of the statements; without a cap the tracker's instance dictionary of a permuted document "
+                "has the same instances with permuted class lists; hence every number of the class profile and (with "
+                "remove_empty_shapes off) the shape set, instance counts and constraint key sets of the whole run are "
+                "the same for g and any permutation of g (Props/C09.v, closed under the global context).  Equality of the "
+                "CHOSEN constraints under ties is refuted by two witnesses (findings C09-F1, C09-F2).  Tied to /repo by "
+                "the byte-exact correspondence and by a metamorphic oracle on pairs of real runs (random and "
+                "exhaustive permutations, blank-node relabelling, IRI stems included).",
+        "design": "DESIGN.md sections 0a, 7 (C09), 11",
+        "note": "Blank-node renaming is checked by the oracle only (no theorem: labels enter shape names and the "
+                "IRI/BNode string comparisons); remove_empty_shapes on and the choice among tied candidates are outside "
+                "the proved statement.  Trusted base as C01.",
+        "technique": "Coq proof (Permutation induction, set characterisation of the tracker, congruence of occ in the "
+                     "instance dictionary) composed with P1 and the key theorem + metamorphic differential runs",
+    },
+    "C10": {
+        "text": "Machine-checked proof (Coq 8.16.1, closed) that, for every graph and target specification of C10_dom "
+                "written as class names (full / <bracketed> / prefixed, list or file) or a shape map (fixed or JSON "
+                "syntax; node, {FOCUS p o}, {s p FOCUS}, SPARQL) or both, the model of sheXer's parsers and instance "
+                "trackers yields a dictionary holding key S for node n iff the Spec denotes n for S, with exact "
+                "multiplicities, nothing else, and rdf:type ordinary under a custom instantiation property; 17 parser "
+                "constants regenerated from /repo; differential run of model vs real tracker on generated cases plus an "
+                "independent Python oracle at dictionary and text level.",
+        "design": "DESIGN.md sections 0a, 7 (C10), 11",
+        "note": "Trusted: Coq kernel, gen_consts.py, extraction (vm_compute cross-checked), rdflib (parse, FOCUS/SPARQL "
+                "evaluation and blank-node ids are oracle arguments, monitored), NT reader = abstract triples.  Off "
+                "C10_dom: findings C10-F1..F6 (_refuted lemmas, pinned reproducers).  Layout variants: check only.",
+        "technique": "Coq proofs by induction over triples/items plus string lemmas (parse o render); extracted-model "
+                     "correspondence; Spec-level Python oracle with figure recomputation",
+    },
+    "C11": {
+        "text": "Machine-checked proof (closed under the global context) that for every well-formed statement -- kinds "
+                "IRI, BNode, NONLITERAL, shape reference, datatype; instantiation constraints of any cardinality and "
+                "direction; all {k>=1}, +, *, ? -- the model of the SHACL serialiser emits exactly the encoding of what "
+                "the model of the ShExC serialiser prints (C11_views_agree, C11_read_back, C11_shapes_agree: one node "
+                "shape per shape, same IRI, sh:targetClass = class, one property shape per constraint, in order; "
+                "C11_cardinality_table), with the node-kind table, SHACL vocabulary, cardinality tables and the "
+                "serialiser's helper-call sequences regenerated from shacl_serializer.py on every run.  Tied to /repo by "
+                "per-line correspondence of both views against one real Shaper's two outputs and by a property-text "
+                "oracle (rdflib + ShExC canonicaliser), plus a complete grid of synthetic statements.",
+        "design": "DESIGN.md sections 0a, 7 (C11), 11",
+        "note": "Conditions: http(s) predicates and class values, a sane namespaces dict, no OR statements, "
+                "detect_minimal_iri off.  Four defects found this way were repaired in /repo (C11-X-3370abe-*, "
+                "C11-X-48b7fcb-*); their reproducers are regression cases.  Trusted base as C01 + rdflib's Turtle parser.",
+        "technique": "Gallina models of both serialisers over one statement; case analysis on kind x cardinality x "
+                     "direction; string lemmas for the IRI print/read round trip; differential check",
     },
     "C12": {
         "text": "Machine-checked proofs for ALL profiles and configurations: with thr1 <= thr2 (CPython binary64 "
@@ -97,6 +222,36 @@ CLAIMED = {
                 "subjects of incoming links get no shape references by design).",
         "technique": "Coq proof (filtering commutes with the stable sort; direct/inverse code paths related by a swap) + "
                      "differential correspondence + metamorphic oracle",
+    },
+    "C16": {
+        "text": "Machine-checked proofs (Coq 8.16.1, closed) that the tracker model with a cap lists per class exactly "
+                "the first min(k,|class|) instances in both target modes (early stop proved harmless), equals the "
+                "uncapped tracker on the restricted document, is the identity for large caps / the source default, and "
+                "that namespaces_to_ignore deletes exactly the direct-child-predicate triples from the feature pass "
+                "only (17 theorems, Props/C16.v); model tied to /repo byte for byte and by two-real-run metamorphic "
+                "oracles, exhaustive over the orderings of <= 5 typing triples.",
+        "design": "DESIGN.md sections 0a, 7 (C16), 11",
+        "note": "Hypotheses: NoDup g, ids_faithful g, tau_ok (off tau_ok: finding C16-F1).  The 'in document order' "
+                "claim is proved as Permutation plus the exact dictionary (C16_cap_dictionary; order witness).  The rest "
+                "of the pipeline is used only through run_shexc2's shape.  Trusted base as C01.",
+        "technique": "induction over the triple stream with a cap-as-filter characterisation, invariant plus pigeonhole "
+                     "for the early stop; differential and metamorphic runs",
+    },
+    "C17": {
+        "text": "Machine-checked proofs (closed under the global context): for ALL well-formed id lists the printed stem "
+                "is a common prefix, ends at ':', '/' or '#', has >= 3 characters, is not a bare scheme and is the "
+                "longest such stem, and no stem is printed only when none is admissible (C17_stem_longest, "
+                "C17_stem_none), independent of instance order; per class the fold computes that stem; for all graphs "
+                "and modes the shape example is an instance of the class and a constraint example is a value of the "
+                "property in that direction on some instance (C17_examples_from_data).  Separators, length bounds and "
+                "the scheme regex are regenerated from the source.  Tied to /repo by bounded-exhaustive function-level "
+                "correspondence (1.2M rows) and end-to-end runs with a brute-force oracle.",
+        "design": "DESIGN.md sections 0a, 7 (C17), 11",
+        "note": "'Neither option changes any constraint' is a run-time metamorphic check, not a theorem.  Finding C17-F3 "
+                "(examples lose their node kind when printed).  Two stem defects repaired in /repo (a83169a, cb32cb4). "
+                "Trusted base as C01.",
+        "technique": "Gallina model + Consts.v + bounded-exhaustive function-level and sampled end-to-end differential "
+                     "correspondence + brute-force Spec oracle",
     },
     "C20": {
         "text": "Machine-checked proof (Coq 8.16.1, closed under the global context) that the model of Shaper.__init__'s "
